@@ -239,3 +239,8 @@ def check(prog, run):
     # ---- T1 registry conservation (shared with C11)
     from . import c11
     c11.registry_conservation(prog, run, run.rule("T1", c11.T1_TEXT, 2))
+
+    # ---- A1 source collections are copied before being changed
+    from .. import aliasmut
+    aliasmut.check(prog, run, "A1", ["py_gql.sdl.ast_type_builder", "py_gql.sdl.schema_from_ast", "py_gql.schema"], 3,
+                   "the schema an extension or transform started from would be modified (and left inconsistent with its lookup tables)")
